@@ -1,6 +1,11 @@
-/- line-protocol driver for C20: `drv_c20 <sub-command>` reads operations on stdin, prints one canonical line per operation.
-   Core Lean only (nothing imported here may import Mathlib, or the executable will not link). -/
+/- line-protocol driver for C20: `drv_c20 <sub-command>`.
+   Core Lean only (nothing imported here may import Mathlib, or the executable will not link).
+     drv_c20 codegen <dumpfile>     assembly text of the code-generation model for an AST dump -/
+import ChibiVerif.Driver.CodegenCmd
 
 def main (args : List String) : IO UInt32 := do
-  IO.eprintln s!"drv_c20: no sub-commands yet (args {args})"
-  return 2
+  match args with
+  | "codegen" :: rest => ChibiVerif.Driver.codegenMain rest
+  | _ =>
+    IO.eprintln "usage: drv_c20 codegen <dumpfile>"
+    return 2
